@@ -991,6 +991,33 @@ func c10Methods(o *core.Obs, data []float64) {
 		{"Split", true, false, func(p *canvas.Path) { p.Split() }},
 		{"SplitAt", true, true, func(p *canvas.Path) { p.SplitAt(ts...) }},
 		{"Dash", true, true, func(p *canvas.Path) { p.Dash(0.5, dash...) }},
+		{"DashArrays", true, true, func(p *canvas.Path) {
+			// dash arrays passed as windows into a larger slice filled with a sentinel: leading, trailing
+			// and interior zeros, odd lengths (doubled by Dash), repeated patterns, negative offsets
+			for _, d := range [][]float64{{0, 1, 2, 4}, {1, 2, 3, 0}, {2, 1, 3}, {3}, {1, 2, 1, 2}, {0, 2, 0}, {1, 0, 2, 3}} {
+				all := make([]float64, len(d)+8)
+				copy(all, d)
+				for i := len(d); i < len(all); i++ {
+					all[i] = c10Sentinel
+				}
+				for _, off := range []float64{0.5, -1.25} {
+					func() {
+						// totality of Dash is the subject of the entry above; here only the argument counts
+						defer func() { recover() }()
+						p.Dash(off, all[:len(d)]...)
+					}()
+					for i := range all {
+						want := c10Sentinel
+						if i < len(d) {
+							want = d[i]
+						}
+						if all[i] != want {
+							panic(fmt.Sprintf("Dash(%g, %v...) changed the caller's dash slice (or wrote beyond it): %v", off, d, all))
+						}
+					}
+				}
+			}
+		}},
 		{"Reverse", true, false, func(p *canvas.Path) { p.Reverse() }},
 		{"Markers", true, false, func(p *canvas.Path) { p.Markers(canvas.Circle(1), canvas.Circle(1), canvas.Circle(1), true) }},
 		{"String", true, false, func(p *canvas.Path) { _ = p.String() }},
